@@ -143,13 +143,22 @@ def run(chk):
         x = rng.integers(-12, 13, size=n) / 4.0
         y = rng.integers(-12, 13, size=n) / 4.0
         f = rng.integers(0, 5, size=n) / 1.0
-        for col in (x, y, f):
-            col[rng.random(n) < 0.15] = np.nan
+        if rng.random() < 0.6:                                   # (complete frames take another path through the helper)
+            for col in (x, y, f):
+                col[rng.random(n) < 0.15] = np.nan
         df = pd.DataFrame({"a": x, "b": y, "c": f})
+        u = rng.random()
+        if u < 0.25:
+            df.index = np.arange(100, 100 + n)                  # frames that were filtered / re-labelled keep a non-default index:
+        elif u < 0.5:
+            df.index = rng.permutation(n) * 3 + 7               # the answer is still about row POSITIONS (after dropping incomplete rows)
+        elif u < 0.6:
+            df.index = [f"s{i}" for i in range(n)]
         bx = sorted(rng.integers(-12, 13, size=2) / 4.0)
         by = sorted(rng.integers(-12, 13, size=2) / 4.0)
         snap = df.copy(deep=True)
-        case = {"helper": "get_constrained_sensors_indices_dataframe", "rows": df.values.tolist(), "box": [bx[0], bx[1], by[0], by[1]]}
+        case = {"helper": "get_constrained_sensors_indices_dataframe", "rows": df.values.tolist(), "box": [bx[0], bx[1], by[0], by[1]],
+                "index": [str(i) for i in df.index]}
         try:
             got = [int(i) for i in K.get_constrained_sensors_indices_dataframe(bx[0], bx[1], by[0], by[1], df, X_axis="a", Y_axis="b")]
         except Exception as e:
